@@ -44,6 +44,9 @@ WS == <<32, 9, 13, 10>>
 Delims == <<32, 44, 59, 9>>
 Spaces(n) == [k \in 1..n |-> 32]
 
+(* printf("%f", 1e100) and printf("%.70f", 0.5): the two float renderings used by the formatf operation *)
+F1e100 == <<49, 48, 48, 48, 48, 48, 48, 48, 48, 48, 48, 48, 48, 48, 48, 48, 48, 49, 53, 57, 48, 50, 56, 57, 49, 49, 48, 57, 55, 53, 57, 57, 49, 56, 48, 52, 54, 56, 51, 54, 48, 56, 48, 56, 53, 54, 51, 57, 52, 53, 50, 56, 49, 51, 56, 57, 55, 56, 49, 51, 50, 55, 53, 53, 55, 55, 52, 55, 56, 51, 56, 55, 55, 50, 49, 55, 48, 51, 56, 49, 48, 54, 48, 56, 49, 51, 52, 54, 57, 57, 56, 53, 56, 53, 54, 56, 49, 53, 49, 48, 52, 46, 48, 48, 48, 48, 48, 48>>
+Half70 == <<48, 46, 53>> \o [k \in 1..69 |-> 48]
 (* the values a const operation must return (sequence of byte strings), or  *)
 (* "any" where this module does not define them                             *)
 OpName(ev) == SubSeq(ev.e, 7, Len(ev.e))
@@ -68,6 +71,7 @@ ExpVal(op, src, ev) ==
       [] op = "tokenize" -> Tokenize(src, Delims)
       [] op \in {"to_utf8", "to_std", "to_latin_1", "stream"} -> <<src>>
       [] op = "format" -> IF ev.k = 1 \/ Len(src) >= 3 THEN <<src>> ELSE <<Spaces(3 - Len(src)) \o src>>
+      [] op = "formatf" -> IF ev.k = 1 THEN <<src \o src \o src \o src \o src \o src \o <<124>> \o F1e100>> ELSE <<Half70 \o <<124>> \o src>>
       [] op = "observe" -> <<>>
       [] OTHER -> <<>>
 Defined(op) == op \notin {"to_utf16", "to_utf32", "to_wchar"}
